@@ -83,17 +83,17 @@ func (ck *checker) effort(q *qm.Q, mode qry.Mode, r qh.Req) qh.Effort {
 			Seam: []qh.Knobs{kNone, kFuzz}, Bound: 1, MaxRuns: 24}
 	case plain:
 		ef = qh.Effort{MinCost: []qh.Knobs{kNone, kFuzz, kNoRev, kNoTI, kBig, kSkewA, kSkewB},
-			Seam: []qh.Knobs{kNone, kFuzz, kBig, kSkewA, kSkewB}, Bound: 3, MaxRuns: 300}
+			Seam: []qh.Knobs{kNone, kFuzz, kBig}, Bound: 2, MaxRuns: 100}
 	case mode == qry.ReadMode && quick:
 		ef = qh.Effort{MinCost: []qh.Knobs{kNone, kNoTI, kBig}, Seam: []qh.Knobs{kNone}, Bound: 0}
 	case mode == qry.ReadMode:
 		ef = qh.Effort{MinCost: []qh.Knobs{kNone, kFuzz, kNoRev, kNoTI, kBig, kSkewA, kSkewB},
-			Seam: []qh.Knobs{kNone, kFuzz}, Bound: 2, MaxRuns: 60}
+			Seam: []qh.Knobs{kNone, kFuzz}, Bound: 1, MaxRuns: 30}
 	case quick:
 		ef = qh.Effort{MinCost: []qh.Knobs{kNone, kFuzz}, Seam: []qh.Knobs{kNone}, Bound: 0}
 	default:
 		ef = qh.Effort{MinCost: []qh.Knobs{kNone, kFuzz, kNoRev, kNoTI, kBig, kSkewB},
-			Seam: []qh.Knobs{kNone, kFuzz}, Bound: 1, MaxRuns: 40}
+			Seam: []qh.Knobs{kNone}, Bound: 1, MaxRuns: 24}
 	}
 	if qm.Count1(q) {
 		// a bare "summarize count" is answered from the table statistics, so
@@ -155,6 +155,8 @@ func (ck *checker) fail(env *qh.Env, q *qm.Q, pc qh.PlanCase, what, format strin
 	switch what {
 	case "rows", "columns-optimized":
 		class = env.Classify(q)
+	case "read":
+		class = qh.ClassifyPanic(msg)
 	}
 	if triage != nil {
 		what += ":" + class
